@@ -98,7 +98,7 @@ func genFile(r *vrand.Rand, i int, big bool) *refflv.File {
 		default:
 			size = r.Range(2, 300)
 		}
-		t.Body = r.Bytes(size)
+		t.Body = r.Shaped(size) // opaque to FLV: half of the bodies look like tag headers, start codes, sync words
 		f.Tags = append(f.Tags, t)
 	}
 	return f
@@ -212,9 +212,33 @@ func checkFile(m *mon.M, vc *detviol.Collector, r *vrand.Rand, f *refflv.File, i
 			return
 		}
 		for k, tg := range f.Tags {
-			if err = mx.WriteTag(flv.TagType(tg.Type), tg.Timestamp, tg.Body); err != nil {
+			// the body is handed over as a window of a larger buffer whose spare capacity holds a canary: the muxer
+			// may read the window, nothing of the caller's memory may change (adjacent frames live there in a real caller)
+			body, canary := tg.Body, []byte(nil)
+			if len(tg.Body) <= 1<<20 {
+				buf := make([]byte, len(tg.Body)+16)
+				copy(buf, tg.Body)
+				canary = buf[len(tg.Body):]
+				for j := range canary {
+					canary[j] = 0xA5 ^ byte(j)
+				}
+				body = buf[:len(tg.Body)]
+			}
+			if err = mx.WriteTag(flv.TagType(tg.Type), tg.Timestamp, body); err != nil {
 				vc.Violationf(i, "c09:mux-error:tag", rep, "WriteTag #%d: %v", k, err)
 				return
+			}
+			if !bytes.Equal(body, tg.Body) {
+				vc.Violationf(i, "c09:muxer-changed-callers-body", rep, "WriteTag #%d changed the bytes of the body it was given", k)
+			}
+			for j := range canary {
+				if canary[j] != 0xA5^byte(j) {
+					vc.Violationf(i, "c09:muxer-wrote-behind-callers-body", rep, "WriteTag #%d (size %d) wrote into the caller's buffer behind the body: spare capacity now %x", k, len(tg.Body), canary)
+					break
+				}
+			}
+			if canary != nil {
+				m.Count("muxer_inputs_with_canary_intact_checked", 1)
 			}
 		}
 		if err = mx.Close(); err != nil {
@@ -372,6 +396,17 @@ func demux(m *mon.M, vc *detviol.Collector, i int, s *transport.SegReader, want 
 	if hv != want.HasVideo || ha != want.HasAudio {
 		vc.Violationf(i, "c09:demux-flags-differ:"+src, rp, "read video=%v audio=%v, written video=%v audio=%v", hv, ha, want.HasVideo, want.HasAudio)
 	}
+	// a caller may keep the bodies it was given (a demuxer feeding a queue does): re-examined after all later reads
+	var keptBodies [][]byte
+	defer func() {
+		for k, b := range keptBodies {
+			if !bytes.Equal(b, want.Tags[k].Body) {
+				vc.Violationf(i, "c09:demux-earlier-body-overwritten:"+src, rp, "tag %d's body was returned correctly, but after the later reads the same slice holds other bytes (equal prefix %d of %d)", k, commonPrefix(b, want.Tags[k].Body), len(b))
+				break
+			}
+		}
+		m.Count("bodies_rechecked_after_later_reads", int64(len(keptBodies)))
+	}()
 	for k, w := range want.Tags {
 		tt, size, ts, err := d.ReadTagHeader()
 		if err != nil {
@@ -399,6 +434,7 @@ func demux(m *mon.M, vc *detviol.Collector, i int, s *transport.SegReader, want 
 		if !bytes.Equal(body, w.Body) {
 			vc.Violationf(i, "c09:demux-body-differs:"+src, rp, "tag %d: %d body bytes returned, %d written, equal prefix %d", k, len(body), len(w.Body), commonPrefix(body, w.Body))
 		}
+		keptBodies = append(keptBodies, body)
 		// observations
 		m.Count("tags_demuxed", 1)
 		m.Count(sizeClass(len(body)), 1)
